@@ -92,10 +92,7 @@ Definition maxl (l : list N) : N := fold_right N.max 0 l.
 (* the query of the attached provider, as the file source sees it *)
 Definition gquery (fsb : N) (st : mstore) (possible : list N) (m : str -> bool) (bundle : N)
            (p : prov) (base : N) : prov * option (list N) :=
-  match blocks_in_range dec0 fsb st possible m p base bundle with
-  | Ok r => r
-  | Panic => (p, None)
-  end.
+  generic_query dec0 fsb st possible m bundle p base.
 
 Definition end_code (e : fend) : N * N :=
   match e with
